@@ -50,6 +50,7 @@ def make_world():
     w.ccomps = {k: {} for k in range(NK)}     # oracle: class components
     w.ctag = {k: 0 for k in range(NK)}
     w.Model = Model
+    w.opos = {}          # name -> expected (x, y, z) while resident in a spatial world
     return w
 
 
@@ -110,6 +111,27 @@ def check_listings(w, out, where):
                 out.append(('C03', f'{where}: model {k} CT{ct} listing is '
                                    f'{None if got is None else [c.agent.id for c in got]}, '
                                    f'expected {[c.agent.id for c in exp]}'))
+
+
+def check_positions(w, out, where):
+    if w.kind[0] == 'plain':
+        return
+    from ECAgent.Environments import PositionComponent
+    _, W, H, D, wrap = w.kind
+    off = 1 if w.kind[0] in ('discrete', 'line', 'grid') else 0
+    for k in w.resident:
+        for n in w.resident[k]:
+            o = w.objs[n]
+            pc = o[PositionComponent]
+            if pc is None:
+                out.append(('C08', f'{where}: resident {n} has no position'))
+                continue
+            got = (pc.x, pc.y, pc.z)
+            if got != tuple(w.opos[n]):
+                out.append(('C08', f'{where}: {n} is at {got}, expected {tuple(w.opos[n])}'))
+            for v, e, ax in zip(got, (W, H, D), 'xyz'):
+                if e > 0 and not (0 <= v <= e - off):
+                    out.append(('C08', f'{where}: {n} is outside the world on axis {ax}: {v} (extent {e})'))
 
 
 def check_classes(w, out, where):
@@ -196,6 +218,8 @@ def run_history(ops, props=None):
                     out.append(('C04', f'{where}: out-of-bounds placement {pos} was accepted'))
                 else:
                     w.resident[k].append(name)
+                    if spatial:
+                        w.opos[name] = tuple(pos)
             except DuplicateAgentError:
                 if not taken or oob:
                     out.append(('C04', f'{where}: DuplicateAgentError but identifier free / placement out of bounds'))
@@ -217,6 +241,7 @@ def run_history(ops, props=None):
                     out.append(('C04', f'{where}: removal of unknown id accepted'))
                 else:
                     w.resident[k].remove(names[0])
+                    w.opos.pop(names[0], None)
                     if w.kind[0] != 'plain':
                         from ECAgent.Environments import PositionComponent
                         if PositionComponent in w.objs[names[0]]:
@@ -301,6 +326,71 @@ def run_history(ops, props=None):
                 out.append(('C13', f'{where}: shuffle -> {[a.id for a in sh]}, expected a permutation of {[a.id for a in exp]}'))
             if monitor.fingerprint((env.agents, m.systems.component_pools)) != before:
                 out.append(('C13', f'{where}: a query altered the environment'))
+        elif kind in ('move', 'move_to'):
+            name = op[1]
+            o = w.objs.get(name)
+            if o is None or w.kind[0] == 'plain':
+                continue
+            from ECAgent.Environments import PositionComponent
+            _, W, H, D, wrap = w.kind
+            off = 1 if w.kind[0] in ('discrete', 'line', 'grid') else 0
+            d = tuple(op[2:5])
+            resident = name in w.resident[w.cur]
+            if not resident:
+                continue
+            p0 = w.opos[name]
+            before = (o[PositionComponent].x, o[PositionComponent].y, o[PositionComponent].z)
+            try:
+                if kind == 'move':
+                    env.move(o, *d)
+                    if wrap:
+                        exp = tuple(((p + dd) % e) if e != 0 else p for p, dd, e in zip(p0, d, (W, H, D)))
+                    else:
+                        exp = tuple(max(min(p + dd, e - off), 0) for p, dd, e in zip(p0, d, (W, H, D)))
+                    w.opos[name] = exp
+                else:
+                    ok = all((0 <= v <= e - off) or e < 1 for v, e in zip(d, (W, H, D)))
+                    env.move_to(o, *d)
+                    if not ok:
+                        out.append(('C08', f'{where}: out-of-range absolute move accepted'))
+                    w.opos[name] = d
+            except IndexError:
+                ok = all((0 <= v <= e - off) or e < 1 for v, e in zip(d, (W, H, D)))
+                if kind == 'move' or ok:
+                    out.append(('C08', f'{where}: unexpected IndexError'))
+                if (o[PositionComponent].x, o[PositionComponent].y, o[PositionComponent].z) != before:
+                    out.append(('C08', f'{where}: rejected move changed the position'))
+        elif kind == 'at':
+            if w.kind[0] == 'plain':
+                continue
+            q = op[1:4]
+            lw, xl, yl, zl = op[4:8]
+            k = w.cur
+            exp = []
+            for n in w.resident[k]:
+                p = w.opos[n]
+                if all(abs(pp - qq) <= max(a, lw) for pp, qq, a in zip(p, q, (xl, yl, zl))):
+                    exp.append(w.objs[n])
+            got = env.get_agents_at(q[0], q[1], q[2], lw, xl, yl, zl)
+            if w.kind[4] and len(op) > 8 and op[8] == 'seam':
+                # documented wrapping behaviour: distance measured around the seam on every positive axis
+                exp = []
+                for n in w.resident[k]:
+                    p = w.opos[n]
+                    ok = True
+                    for pp, qq, a, e in zip(p, q, (xl, yl, zl), w.kind[1:4]):
+                        dd = abs(pp - qq)
+                        if e > 0:
+                            dd = min(dd % e, e - (dd % e))
+                        ok = ok and dd <= max(a, lw)
+                    if ok:
+                        exp.append(w.objs[n])
+                if len(got) != len(exp) or any(a is not b for a, b in zip(got, exp)):
+                    out.append(('C12', f'{where}: wrapping world: get_agents_at -> {[a.id for a in got]}, '
+                                       f'expected {[a.id for a in exp]} (seam-aware)'))
+            elif len(got) != len(exp) or any(a is not b for a, b in zip(got, exp)):
+                if not w.kind[4]:
+                    out.append(('C12', f'{where}: get_agents_at -> {[a.id for a in got]}, expected {[a.id for a in exp]}'))
         elif kind in ('cadd', 'cremove'):
             ci, ct = op[1], op[2]
             cls = w.K[ci]
@@ -327,6 +417,7 @@ def run_history(ops, props=None):
             w.ctag[op[1]] = op[2]
         check_listings(w, out, where)
         check_classes(w, out, where)
+        check_positions(w, out, where)
         if len(out) > 6:
             break
     return out
@@ -418,6 +509,59 @@ def random_history(rng, prop):
     return ops
 
 
+def spatial_histories(prop):
+    worlds = [('space', 5.0, 3.0, 7.0), ('space', 5.0, 0.0, 5.0), ('space', 0.0, 4.0, 0.0), ('discrete', 3, 0, 3),
+              ('discrete', 4, 3, 2), ('line', 5, 0, 0), ('grid', 5, 1, 0), ('grid', 4, 3, 0), ('space', 1.0, 1.0, 1.0)]
+    for kind, W, H, D in worlds:
+        fl = kind == 'space'
+        half = 0.5 if fl else 0
+        for wrap in (False, True):
+            ops = [('world', kind, W, H, D, wrap), _mk('a', 0, None, (0,)), _mk('b'), _mk('c'),
+                   ('add', 'a', 0, 0, 0), ('add', 'b', (W - (0 if fl else 1)) if W else 0, (H - (0 if fl else 1)) if H else 0,
+                                           (D - (0 if fl else 1)) if D else 0), ('add', 'c', half, 0, 0)]
+            for d in [(1, 0, 0), (0, 1, 0), (0, 0, 1), (-1, -1, -1), (11, -9, 23), (-17, 40, -3), (W, H, D),
+                      (2 * W + 1, -2 * H - 1, 3 * D), (half, half, half)]:
+                ops += [('move', 'a') + d, ('move', 'b') + d]
+            for t in [(0, 0, 0), (W, H, D), (W - 1, H - 1, D - 1), (0, 41, 0), (-1, 0, 0), (0, 0, D + 1), (W + 1, 0, 0),
+                      (half, half, half)]:
+                ops += [('move_to', 'a') + t]
+            for q in [(0, 0, 0), (W, H, D), (half, 0, 0)]:
+                for lw in [(0, 0, 0, 0), (1, 0, 0, 0), (0, 2, 0, 0), (0, 0, 2, 1), (1, 0, 3, 0), (0, 0, 0, 3), (-1, -1, -1, -1),
+                           (0.5, 0, 2, 0)]:
+                    ops += [('at',) + q + lw]
+            ops += [('remove', 'a'), ('at', 0, 0, 0, 9, 9, 9, 9), ('remove', 'b')]
+            yield ops
+
+
+def random_spatial(rng, prop):
+    kind = rng.choice(['space', 'space', 'discrete', 'line', 'grid'])
+    fl = kind == 'space'
+    ext = lambda: rng.choice([0, 1, 2, 3, 5]) * (1.0 if fl else 1)
+    W = rng.choice([1, 2, 3, 5]) * (1.0 if fl else 1)
+    H = ext() if kind in ('space', 'discrete') else (rng.choice([1, 2, 4]) if kind == 'grid' else 0)
+    D = ext() if kind in ('space', 'discrete') else 0
+    wrap = rng.random() < 0.4
+    ops = [('world', kind, W, H, D, wrap)]
+    names = ['a', 'b', 'c']
+    num = (lambda lo, hi: round(rng.uniform(lo, hi) * 2) / 2) if fl else (lambda lo, hi: rng.randint(int(lo), int(hi)))
+    for n in names:
+        ops.append(_mk(n, 0, None, rng.sample(range(NCT), rng.randint(0, 2))))
+    for _ in range(rng.randint(5, 18)):
+        r = rng.random()
+        n = rng.choice(names)
+        if r < 0.25:
+            ops.append(('add', n, num(-1, W + 1), num(-1, H + 1) if H else 0, num(-1, D + 1) if D else 0))
+        elif r < 0.5:
+            ops.append(('move', n, num(-3 * W - 2, 3 * W + 2), num(-3 * H - 2, 3 * H + 2), num(-3 * D - 2, 3 * D + 2)))
+        elif r < 0.65:
+            ops.append(('move_to', n, num(-1, W + 1), num(-1, H + 1), num(-1, D + 1)))
+        elif r < 0.9:
+            ops.append(('at', num(-1, W + 1), num(-1, H + 1), num(-1, D + 1), num(-1, 2), num(-1, 3), num(-1, 3), num(-1, 3)))
+        else:
+            ops.append(('remove', n))
+    return ops
+
+
 def _resident_edits(ops):
     """Does the history attach/detach/register on a resident agent (the part of C03 that is an open finding)?"""
     resident = set()
@@ -432,8 +576,13 @@ def _resident_edits(ops):
 
 
 def histories(seed, budget, prop='C04'):
-    yield from small_histories(prop)
     rng = random.Random(seed)
+    if prop in ('C08', 'C12'):
+        yield from spatial_histories(prop)
+        for _ in range(budget):
+            yield random_spatial(rng, prop)
+        return
+    yield from small_histories(prop)
     for _ in range(budget):
         h = random_history(rng, prop)
         if not _resident_edits(h):
